@@ -101,6 +101,12 @@ def configs(tier, rng):
             C.append(dict(base, MAXITER=1, NP=NP, NL=1, TEND=4 * 4 * NP, JAC=False, RFF=True, MAXR=maxr, CRASH=(NP + maxr) % 2 == 0,
                           seed=rng.randint(0, 999), pconv=100, prs=50, pdt=0))
     C.append(dict(base, NP=3, NL=2, TEND=24, PRED='pfasst_burnin', MAXR=2, CRASH=False, seed=rng.randint(0, 999), pconv=50, prs=30, pdt=40))
+    # real residuals, scripted restarts / step-size changes (step sizes leave the dyadic lattice: times agree up to rounding only)
+    for NP in (3, 4):
+        C.append(dict(base, NP=NP, NL=1, TEND=4 * (NP + 2), MAXITER=8, JAC=NP == 3, MAXR=12, CRASH=False, oracle='restarts_only', restol=1e-7,
+                      prs=30, pdt=70, seed=rng.randint(0, 999)))
+    C.append(dict(base, NP=4, NL=1, TEND=24, MAXITER=12, MAXR=12, CRASH=False, oracle='restarts_only', restol=1e-9, prs=0, pdt=0, seed=1,
+                  forced=[[16, 0, 2]]))
     # real residuals instead of the oracle
     C.append(dict(base, NP=3, NL=1, TEND=24, MAXITER=8, oracle=False, restol=1e-6, seed=0))
     C.append(dict(base, NP=3, NL=2, TEND=24, MAXITER=8, PRED='pfasst_burnin', oracle=False, restol=1e-7, seed=0))
@@ -131,16 +137,21 @@ def compare(cfg, ser, m):
         return d
     sa = [s for s in ser['steps'] if not s['restart']]
     ma = [s for s in m['steps'] if not s['restart']]
-    if [s['t'] for s in sa] != [s['t'] for s in ma] or [s['dt'] for s in sa] != [s['dt'] for s in ma]:
+    import math
+
+    def close(a, b):  # the property compares step times up to rounding
+        return abs(a - b) <= 4 * math.ulp(max(abs(a), abs(b), 1e-300))
+
+    if len(sa) != len(ma) or any(not close(a['t'], b['t']) or not close(a['dt'], b['dt']) for a, b in zip(sa, ma)):
         d.append(('step_times', f"serial {[(s['t'], s['dt']) for s in sa][:8]} / MPI {[(s['t'], s['dt']) for s in ma][:8]}"))
         return d
     if [s['niter'] for s in sa] != [s['niter'] for s in ma]:
         d.append(('iteration_counts', f"serial {[s['niter'] for s in sa]} / MPI {[s['niter'] for s in ma]}"))
     sr = sorted((s['t'], s['dt'], s['riar']) for s in ser['steps'] if s['restart'])
     mr = sorted((s['t'], s['dt'], s['riar']) for s in m['steps'] if s['restart'])
-    if [x[:2] for x in sr] != [x[:2] for x in mr]:
+    if len(sr) != len(mr) or any(not close(a[0], b[0]) or not close(a[1], b[1]) for a, b in zip(sr, mr)):
         d.append(('restarts', f'serial {sr[:6]} / MPI {mr[:6]}'))
-    elif sr != mr:
+    elif [x[2] for x in sr] != [x[2] for x in mr]:
         d.append(('restart_counters', f'serial {sr[:6]} / MPI {mr[:6]}'))
     if [s['uend'] for s in sa] != [s['uend'] for s in ma]:
         d.append(('step_values', 'end values of accepted steps differ'))
